@@ -240,7 +240,7 @@ type Observed struct {
 	Printed  string
 	HasR     bool
 	Err      error
-	Panic    string // "", "parse", "setup", "call"
+	Panic    string // "", "parse", "execute" (before the function was entered), "call"
 	PanicV   string
 	Decoy    int
 	Calls    int
@@ -308,7 +308,7 @@ func Run(sig *Sig, args []string, called bool) (*Observed, bool) {
 	func() {
 		defer func() {
 			if r := recover(); r != nil {
-				ob.Panic, ob.PanicV = "setup", fmt.Sprint(r)
+				ob.Panic, ob.PanicV = "execute", fmt.Sprint(r)
 				if rec.Calls > 0 {
 					ob.Panic = "call"
 				}
